@@ -55,10 +55,19 @@ ALPHABETS = [
     ["x10", "x9", "X1", "_x", "x"],
     ["zeta", "", "a b", "Ω", "0"],
     [f"n{i}" for i in range(16)],  # for the larger hand-enumerated families ("n10" < "n2": sorted order != index order)
+    # names that collide under common normalisations: an order that is not a function of the EXACT names (case-insensitive,
+    # stripped, casefolded, NFKC-normalised sort keys...) ties on them and falls back on insertion / hash order
+    ["X", "x", "Xa", "xA", "xa"],  # (4) equal up to case, valid identifiers
+    ["a", " a", "\u00df", "ss", "a "],  # (5) equal up to surrounding whitespace; casefold("\u00df") == "ss"
+    ["\ufb01", "fi", "\u212a", "k", "K"],  # (6) NFKC("\ufb01") == "fi"; lower(KELVIN SIGN) == "k" == lower("K")
 ]
+GRID_ALPHABETS = [0, 1, 2, 4, 5, 6]
 UNKNOWN = "zz"
 CTORS_FOR_ALPHABET = {0: ("direct", "from_dict", "from_dict_nif"), 1: ("direct", "from_dict", "from_dict_nif"),
-                      2: ("direct", "from_dict_nif"), 3: ("direct", "from_dict", "from_dict_nif")}
+                      2: ("direct", "from_dict_nif"), 3: ("direct", "from_dict", "from_dict_nif"),
+                      4: ("direct", "from_dict", "from_dict_nif"),
+                      # (5), (6): not usable as keyword names (blanks; the parser NFKC-normalises identifiers)
+                      5: ("direct", "from_dict_nif"), 6: ("direct", "from_dict_nif")}
 SITE = {"direct": "VariablesDAG()", "from_dict": "VariablesDAG.from_dict", "from_dict_nif": "VariablesDAG.from_dict"}
 
 
